@@ -564,3 +564,33 @@ Lemma kz_ord_resume (proj : Rvec -> Rvec) (ops : list (@kzop R)) (dflt : @kzop R
   = iterk m 0 (fun k => kz_step_ord proj ops dflt (order (n + k)%nat))
       (iterk n 0 (fun k => kz_step_ord proj ops dflt (order k)) x).
 Proof. rewrite iterk_add, iterk_shift. reflexivity. Qed.
+
+(* ===================================== accelerated PDHG: (tau, sigma, x, x_relax, y) is the whole state *)
+Section PDHGacc_R.
+Variables (L Ladj : Rvec -> Rvec) (proxp proxd : R -> Rvec -> Rvec) (acc : R * R -> R * (R * R)).
+Lemma pdhg_acc_resume (n m : nat) (ts : R * R) (st : pdhg_st) :
+  pdhg_acc_iter L Ladj proxp proxd acc (n + m) ts st
+  = let '(ts1, st1) := pdhg_acc_iter L Ladj proxp proxd acc n ts st in
+    pdhg_acc_iter L Ladj proxp proxd acc m ts1 st1.
+Proof.
+  revert ts st; induction n as [|n IH]; intros ts st; cbn [pdhg_acc_iter Nat.add]; [reflexivity|].
+  destruct (acc ts) as [th ts']. apply IH.
+Qed.
+(* the recursive form is the counter-indexed form used for the regenerated program *)
+Lemma pdhg_acc_iter_iterk (n : nat) : forall (k0 : nat) (ts0 ts : R * R) (st : pdhg_st),
+  ts = acc_steps acc k0 ts0 ->
+  pdhg_acc_iter L Ladj proxp proxd acc n ts st
+  = (acc_steps acc (k0 + n) ts0,
+     iterk n k0 (fun k => let tk := acc_steps acc k ts0 in
+                          pdhg_step L Ladj (proxp (fst tk)) (proxd (snd tk)) (fst tk) (snd tk) (fst (acc tk))) st).
+Proof.
+  induction n as [|n IH]; intros k0 ts0 ts st E; cbn [pdhg_acc_iter iterk].
+  - now rewrite Nat.add_0_r, E.
+  - subst ts. destruct (acc (acc_steps acc k0 ts0)) as [th ts'] eqn:Ea.
+    rewrite (IH (S k0) ts0 ts').
+    + replace (S k0 + n)%nat with (k0 + S n)%nat by lia. cbn [fst]. reflexivity.
+    + assert (Hs : forall k t, acc_steps acc (S k) t = snd (acc (acc_steps acc k t))).
+      { induction k as [|k IHk]; intros t; cbn [acc_steps]; [reflexivity|]. apply IHk. }
+      rewrite Hs, Ea. reflexivity.
+Qed.
+End PDHGacc_R.
